@@ -1,4 +1,51 @@
-/- dsmodel_wire_theta: wire-format model driver stub (filled in when the family group is built). -/
-def main (_args : List String) : IO UInt32 := do
-  IO.eprintln "dsmodel_wire_theta: not built yet"
-  return 2
+/- dsmodel_wire_theta <gen|doc>: wire-format model driver of the Theta / Tuple / array-of-doubles group.
+   `gen`: wire constants as translated from the current headers (DSGen.WireTheta); `doc`: the documented constants. -/
+import DSModel.DriverLoop
+import DSModel.Wire.ThetaDriver
+import DSModel.Wire.TupleDriver
+import DSModel.Wire.BitPackDriver
+import DSGen.WireTheta
+open DS DS.Wire
+
+def genThetaConsts : Theta.Consts :=
+  { serVer3 := DSGen.wth_UNCOMPRESSED_SERIAL_VERSION, serVer4 := DSGen.wth_COMPRESSED_SERIAL_VERSION,
+    sketchType := DSGen.wth_SKETCH_TYPE, fReadOnly := DSGen.wth_flag_IS_READ_ONLY, fEmpty := DSGen.wth_flag_IS_EMPTY,
+    fCompact := DSGen.wth_flag_IS_COMPACT, fOrdered := DSGen.wth_flag_IS_ORDERED }
+
+def genTupleConsts : Tuple.Consts :=
+  { serVer := DSGen.wtu_SERIAL_VERSION, serVerLegacy := DSGen.wtu_SERIAL_VERSION_LEGACY, family := DSGen.wtu_SKETCH_FAMILY,
+    sketchType := DSGen.wtu_SKETCH_TYPE, sketchTypeLegacy := DSGen.wtu_SKETCH_TYPE_LEGACY,
+    fReadOnly := DSGen.wtu_flag_IS_READ_ONLY, fEmpty := DSGen.wtu_flag_IS_EMPTY, fCompact := DSGen.wtu_flag_IS_COMPACT,
+    fOrdered := DSGen.wtu_flag_IS_ORDERED }
+
+def genAodConsts : Aod.Consts :=
+  { serVer := DSGen.wao_SERIAL_VERSION, family := DSGen.wao_SKETCH_FAMILY, sketchType := DSGen.wao_SKETCH_TYPE,
+    fEmpty := DSGen.wao_flag_IS_EMPTY, fHasEntries := DSGen.wao_flag_HAS_ENTRIES, fOrdered := DSGen.wao_flag_IS_ORDERED }
+
+structure Cfg where
+  theta : Theta.Consts
+  tuple : Tuple.Consts
+  aod : Aod.Consts
+
+def step (cfg : Cfg) (_ : Unit) (w : List String) : Unit × String :=
+  match w with
+  | ["IMG", kind, seed, hex] =>
+    match seed.toNat?, parseHexBytes hex with
+    | some seed, some b =>
+      if kind.startsWith "theta" then ((), Theta.imgLine cfg.theta kind seed b.toList)
+      else if kind.startsWith "tuple" then ((), Tuple.imgLine cfg.tuple kind seed b.toList)
+      else if kind == "aod" then ((), Aod.imgLine cfg.aod seed b.toList)
+      else ((), "bad-kind")
+    | _, _ => ((), "bad-op")
+  | "ENC" :: kind :: "T" :: rest =>
+    if kind.startsWith "theta" then ((), Theta.encLine cfg.theta kind rest) else ((), "bad-kind")
+  | "ENC" :: kind :: "U" :: rest =>
+    if kind.startsWith "tuple" then ((), Tuple.encLine cfg.tuple kind rest) else ((), "bad-kind")
+  | "BP" :: _ => ((), BitPack.bpLine w)
+  | "BPT" :: _ => ((), BitPack.bpLine w)
+  | _ => ((), "bad-op")
+
+def main (args : List String) : IO UInt32 := do
+  let cfg : Cfg := if args.head? == some "doc" then { theta := Theta.documented, tuple := Tuple.documented, aod := Aod.documented }
+    else { theta := genThetaConsts, tuple := genTupleConsts, aod := genAodConsts }
+  DS.runDriver () (step cfg)
